@@ -152,6 +152,12 @@ theorem wrapInt_eq_of_congr {bits : Nat} (h : 1 ≤ bits) (s : Bool) (v w : Int)
 example : InRange 8 false 255 := by decide
 example : InRange 8 true (-128) := by decide
 example : ¬ InRange 8 true 128 := by decide
+example : wrapInt 8 true 200 = -56 :=
+  (wrapInt_unique (by decide) true 200 (-56) (by decide) (by decide)).symm
+example : wrapInt 16 false 65535 = 65535 := wrapInt_id_of_in_range (by decide) false 65535 (by decide)
+/-- why `1 ≤ bits` is needed for uniqueness at a signed type: at width 0 the nominal range `[-1, 1)` has two
+    members congruent modulo `2^0 = 1` -/
+example : InRange 0 true (-1) ∧ ((-1 : Int) - 0) % ((2 ^ 0 : Nat) : Int) = 0 ∧ wrapInt 0 true 0 ≠ -1 := by decide
 
 /-! ## 2. operators -/
 
@@ -182,6 +188,11 @@ theorem tdiv_trem_spec (a b : Int) : Int.tdiv a b * b + Int.tmod a b = a :=
 theorem trem_abs_lt (a b : Int) (hb : b ≠ 0) : (Int.tmod a b).natAbs < b.natAbs := by
   rw [Int.natAbs_tmod]
   exact Nat.mod_lt _ (by omega)
+
+theorem trem_abs_lt' (a b : Int) (hb : b ≠ 0) :
+    -(b.natAbs : Int) < Int.tmod a b ∧ Int.tmod a b < (b.natAbs : Int) := by
+  have := trem_abs_lt a b hb
+  omega
 
 /-- hence the quotient is rounded toward zero: `|q * b| ≤ |a|` -/
 theorem tdiv_toward_zero (a b : Int) : (Int.tdiv a b * b).natAbs ≤ a.natAbs := by
